@@ -110,10 +110,9 @@ type Engine struct {
 	globals   map[*ssa.Global]*Object
 	initDone  map[*ssa.Package]bool
 	initObjs  []*Object
-	initSnap  []Value
 	initMaps  []*MapObj
-	initMapSn [][]mapEntry
 	inInit    bool
+	initTarget *ssa.Function
 
 	// tables
 	replace  map[string]*ssa.Function
@@ -596,11 +595,11 @@ func (e *Engine) resetPath() {
 	e.wg = nil
 	e.sha1Memo = map[string]*Term{}
 	// restore init-phase objects
-	for i, o := range e.initObjs {
-		o.V = e.initSnap[i]
+	for _, o := range e.initObjs {
+		o.V = o.snap
 	}
-	for i, m := range e.initMaps {
-		m.Entries = append([]mapEntry(nil), e.initMapSn[i]...)
+	for _, m := range e.initMaps {
+		m.Entries = append([]mapEntry(nil), m.snap...)
 	}
 }
 
